@@ -113,10 +113,17 @@ fn gen_batch(r: &mut StdRng, n: usize) -> Value {
     let nq = if r.gen_bool(0.3) { par * r.gen_range(1..=3) + r.gen_range(0..=1) } else { r.gen_range(1..=n.max(2)) };
     let mut queries = vec![];
     let energy = r.gen_bool(0.3);
+    // degenerate mixes: a batch in which every query is rejected by the input stage (nothing reaches the search), or
+    // every query fails in the search
+    let uniform = match r.gen_range(0..12) {
+        0 => Some(2),
+        1 => Some(1),
+        _ => None,
+    };
     for qid in 1..=nq {
         let o = r.gen_range(0..nv);
         let d = r.gen_range(0..nv);
-        let mut q = match r.gen_range(0..10) {
+        let mut q = match uniform.unwrap_or_else(|| r.gen_range(0..10)) {
             0 => json!({"qid": qid, "origin_vertex": o}),                                   // tree search
             1 => json!({"qid": qid, "origin_vertex": nv + 50, "destination_vertex": d}),    // fails in search
             2 => json!({"qid": qid, "perr": true, "origin_vertex": o, "destination_vertex": d,
